@@ -175,10 +175,16 @@ func recordingFinalName(filename string) string {
 }
 
 func deleteTempFiles(directory string) error {
-	matches, _ := filepath.Glob(filepath.Join(directory, "*."+cptvTempExt))
-	for _, filename := range matches {
-		if err := os.Remove(filename); err != nil {
-			return err
+	// Unfinished recordings (*.cptv.temp) and the CPTV writer's uncompressed scratch files
+	// (*.cptv.temp.tmp), in the output directory and in the constant recorder's directory.
+	for _, dir := range []string{directory, path.Join(directory, "constant-recordings")} {
+		for _, pattern := range []string{"*." + cptvTempExt, "*." + cptvTempExt + ".tmp"} {
+			matches, _ := filepath.Glob(filepath.Join(dir, pattern))
+			for _, filename := range matches {
+				if err := os.Remove(filename); err != nil {
+					return err
+				}
+			}
 		}
 	}
 	return nil
